@@ -34,6 +34,9 @@ Definition check (c : case) : bool :=
 Definition last_is_field (p : path) : bool :=
   match rev p with SField _ :: _ => true | _ => false end.
 
+Fixpoint fields_only_path (p : path) : bool :=
+  match p with [] => true | SField _ :: p' => fields_only_path p' | SIndex _ :: _ => false end.
+
 Definition oracle (c : case) : bool :=
   match c with
   | CGet _ _ _ => true
@@ -44,7 +47,10 @@ Definition oracle (c : case) : bool :=
   | CRemove v p pr r v' gpb gpa =>
       opt_eqb r gpb                                          (* remove returns what get returned *)
       && (match gpb with None => value_eqb v v' | Some _ => true end)   (* nothing found => unchanged *)
-      && (if last_is_field p then opt_eqb gpa None else true)           (* removed field is gone *)
+      (* a removed field is gone - judged only where no array element can be compacted away: with pruning, removing
+         the last entry of an array element deletes that element and renumbers the ones behind it, so the same path then
+         names another element (by design of compaction; the property does not state this law at all) *)
+      && (if last_is_field p && (negb pr || fields_only_path p) then opt_eqb gpa None else true)
   end.
 
 (* what the model says, for replay files *)
